@@ -5,11 +5,12 @@ import random
 from mvf import boot
 from mvf import coop as coop_mod
 from mvf import schedharness as sh
+from mvf import schedthread as sth
 from mvf import world as world_mod
 
 PROP = 'C13'
 LEVEL = 'fault_enumeration'
-DECIDING = ['invocation-log']
+DECIDING = ['invocation-log', 'dispatcher-log']
 RULE = ('1..3 real scheduler instances (DefaultScheduler, LegacyScheduler) '
         'on the shared database, 1..3 jobs (delays 0..3 s, with and without '
         'key, scheduled inside transactions that commit, roll back or expire '
@@ -26,7 +27,17 @@ RULE = ('1..3 real scheduler instances (DefaultScheduler, LegacyScheduler) '
         'never, has_scheduled_jobs(key, processing=False) at every boundary '
         '= a committed uncaptured job with that key exists.  Distinct = '
         '(scenario, crash point, interleaving hash); non-trivial = at least '
-        'one job was captured.')
+        'one job was captured.  Thread mode (default scheduler): the real '
+        '_dispatcher thread runs against the virtual clock (instrumented '
+        'condition variable whose wait() parks until the harness delivers '
+        'the virtual time-out, a notify of the scheduler, or a spurious '
+        'wake-up; recording executor); random operation sequences '
+        '(schedule in committing / rolling-back / object-expiring '
+        'transactions, fractional clock advances, spurious wake-ups, run a '
+        'submitted job, store poll, stop + restart); oracle over the '
+        'dispatcher log: no submission before execute_at on the service '
+        'clock, none twice, none after stop(), the thread neither dies '
+        'nor survives stop(), plus the invocation-log rules above.')
 ASSUMPTIONS = [
     'the clock is not advanced while a live instance is between capture '
     'and delete of a job (so "finishes within the capture timeout" holds '
@@ -69,7 +80,146 @@ def cases(seed, tier):
                     'crash_schedules': 2 if tier == 'quick' else 6,
                     'max_crash_points': 60 if tier == 'quick' else 400,
                     'pseed': prng.randint(0, 10 ** 6)})
+    for i in range(32 if tier == 'quick' else 128):
+        out.append({'thread': 120 if tier == 'quick' else 1200,
+                    'pseed': rng.getrandbits(32)})
     return out
+
+
+def gen_thread_scenario(rng):
+    ops = []
+    n = rng.randint(5, 16)
+    stopped = False
+    for _ in range(n):
+        x = rng.random()
+        if x < 0.32:
+            ops.append(['sched', rng.choice([0, 0, 1, 1, 2, 3]),
+                        rng.random() < 0.85, rng.random() < 0.2])
+        elif x < 0.62:
+            ops.append(['advance', rng.choice([0.3, 0.5, 0.9, 1, 1, 1.5, 2,
+                                               3, 5])])
+        elif x < 0.72:
+            ops.append(['spurious'])
+        elif x < 0.84:
+            ops.append(['run'])
+        elif x < 0.95:
+            ops.append(['poll'])
+        elif not stopped:
+            stopped = True
+            ops.append(['stop', False])
+    return {'ops': ops, 'uuid_seed': rng.randint(0, 10 ** 6),
+            'clock_offset': rng.choice([0.0, 0.0, 0.25, 0.999, 0.5]),
+            'auto_run': rng.random() < 0.4}
+
+
+def execute_thread(sc):
+    w = sth.ThreadWorld(sc)
+    out = {'inconclusive': None}
+    try:
+        w.setup()
+        w.run()
+    except sth.Stuck as e:
+        out['inconclusive'] = 'watchdog: %s' % e
+    except Exception:
+        import traceback
+        out['inconclusive'] = 'harness error: ' + \
+            traceback.format_exc()[-800:]
+    finally:
+        try:
+            w.teardown()
+        except Exception:
+            pass
+    out.update({'world': w, 'invocations': list(sth.INVOCATIONS)})
+    return out
+
+
+def judge_thread(sc, r, res, desc):
+    w = r['world']
+    res['monitor_evaluations']['dispatcher-log'] += 1
+
+    def viol(mech, msg):
+        res['violations'].append(dict(desc, prop='C13',
+                                      monitor='dispatcher-log', mech=mech,
+                                      msg=msg))
+    seen = {}
+    for sub in w.submitted:
+        res['monitor_evaluations']['dispatcher-submit'] = \
+            res['monitor_evaluations'].get('dispatcher-submit', 0) + 1
+        if sub['t'] < sub['execute_at']:
+            viol('dispatched-early',
+                 'the dispatcher submitted job %s at t=%s (exact %s) but '
+                 'its execution time is t=%s' % (
+                     sub['tag'], sub['t'], sub['t_exact'],
+                     sub['execute_at']))
+        if sub['after_stop'] or sub['after_shutdown']:
+            viol('submitted-after-stop',
+                 'job %s was submitted to the pool after stop()' %
+                 sub['tag'])
+        seen[sub['id']] = seen.get(sub['id'], 0) + 1
+    for jid, n in seen.items():
+        if n > 1:
+            viol('dispatched-twice', 'job %s was submitted %d times by one '
+                 'dispatcher' % (jid, n))
+    for a in w.alarms:
+        viol(a['mech'], a['msg'])
+    inv = {}
+    for e in r['invocations']:
+        inv.setdefault(e['tag'], []).append(e)
+    for tag, j in w.jobs.items():
+        calls = inv.get(tag, [])
+        if not j['commit']:
+            if calls:
+                viol('rolled-back-job-ran', 'job %s was rolled back but '
+                     'ran %d times' % (tag, len(calls)))
+            continue
+        for c in calls:
+            if c['t'] < j['sched_t'] + j['delay']:
+                viol('ran-early', 'job %s (delay %ss, scheduled at t=%s) '
+                     'ran at t=%s' % (tag, j['delay'], j['sched_t'],
+                                      c['t']))
+        if not calls:
+            viol('committed-job-never-ran', 'job %s was committed but '
+                 'never ran' % tag)
+        if len(calls) > 1:
+            viol('ran-%d-times' % len(calls), 'job %s ran %d times '
+                 'without any crash' % (tag, len(calls)))
+
+
+def run_thread_case(case):
+    res = {'violations': [], 'executions': 0, 'keys': [],
+           'monitor_evaluations': {'invocation-log': 0,
+                                   'dispatcher-log': 0},
+           'interleavings': [], 'extra': {'dispatcher_parks': 0,
+                                          'dispatcher_timeouts': 0,
+                                          'dispatcher_notifies': 0,
+                                          'dispatcher_late_wakeups': 0},
+           'sample': None}
+    rng = random.Random(case['pseed'])
+    for _ in range(case['thread']):
+        sc = gen_thread_scenario(rng)
+        r = execute_thread(sc)
+        res['executions'] += 1
+        if r['inconclusive']:
+            res['inconclusive'] = r['inconclusive']
+            break
+        w = r['world']
+        judge_thread(sc, r, res, {'thread_scenario': sc})
+        res['monitor_evaluations']['invocation-log'] += 1
+        res['extra']['dispatcher_parks'] += w.parks
+        res['extra']['dispatcher_timeouts'] += w.timeouts_delivered
+        res['extra']['dispatcher_notifies'] += w.notifies
+        res['extra']['dispatcher_late_wakeups'] += w.missed_due
+        sig = str(sc['ops'])
+        if w.submitted:
+            res['keys'].append(['thread', sig, sc['auto_run']])
+        import hashlib
+        res['interleavings'].append('T' + hashlib.sha1(sig.encode()).hexdigest()[:12])
+        if res['sample'] is None and w.submitted and r['invocations']:
+            res['sample'] = {'thread_scenario': sc,
+                             'dispatcher_waits': w.wait_log[:20],
+                             'submitted': w.submitted,
+                             'invocations': r['invocations']}
+    return res
 
 
 def execute(sc, replay=None, strategy=None, crash=None):
@@ -164,6 +314,8 @@ def judge(sc, r, res, desc):
 
 
 def run_case(case):
+    if case.get('thread'):
+        return run_thread_case(case)
     res = {'violations': [], 'executions': 0, 'keys': [],
            'monitor_evaluations': {'invocation-log': 0},
            'interleavings': [], 'extra': {'crash_points': 0,
